@@ -8,11 +8,13 @@ import (
 	"fmt"
 	"os"
 	"path/filepath"
+	"runtime"
 	"strings"
 	"testing"
 
 	"github.com/cockroachdb/errors"
 	"github.com/cockroachdb/errors/domains"
+	"github.com/cockroachdb/errors/errbase"
 	"github.com/cockroachdb/errors/errutil"
 	"github.com/cockroachdb/errors/withstack"
 	"pgregory.net/rapid"
@@ -191,6 +193,37 @@ func check(c *pbt.Case, r *pbt.R) {
 		// modulo that split.
 		if fn != want.Function || file != want.File || line != want.Line {
 			r.Failf("first frame of the stack is not the d-th caller: "+ct.name, "got %s %s:%d\n%s", fn, file, line, desc)
+		}
+		// The whole reportable stack trace, not only its innermost frame:
+		// one frame per recorded program counter, oldest call first, each
+		// with the function, file and line the Go runtime gives for it.
+		for x := res.Err; x != nil; x = errors.UnwrapOnce(x) {
+			sp, isSP := x.(errbase.StackTraceProvider)
+			if !isSP {
+				continue
+			}
+			pcs := sp.StackTrace()
+			st := errors.GetReportableStackTrace(x)
+			if st == nil || len(st.Frames) != len(pcs) {
+				n := -1
+				if st != nil {
+					n = len(st.Frames)
+				}
+				r.Failf("the reportable stack trace does not have one frame per recorded program counter: "+ct.name, "frames %d, program counters %d\n%s", n, len(pcs), desc)
+				break
+			}
+			for i, p := range pcs {
+				pc := uintptr(p) - 1
+				rfn := runtime.FuncForPC(pc)
+				if rfn == nil {
+					continue
+				}
+				rfile, rline := rfn.FileLine(pc)
+				fr := st.Frames[len(pcs)-1-i]
+				if fr.AbsPath != rfile || fr.Lineno != rline || strings.Replace(fr.Module+"."+fr.Function, "·", ".", -1) != strings.Replace(rfn.Name(), "·", ".", -1) {
+					r.Failf("a frame of the reportable stack trace is not what the runtime says for its program counter: "+ct.name, "frame %d: got %s.%s %s:%d, runtime %s %s:%d\n%s", i, fr.Module, fr.Function, fr.AbsPath, fr.Lineno, rfn.Name(), rfile, rline, desc)
+				}
+			}
 		}
 		sf, sl, sfn, sok := errors.GetOneLineSource(res.Err)
 		short := want.Function[strings.LastIndex(want.Function, "/")+1:]
